@@ -390,10 +390,15 @@ def simple_type_renderings(ctx):
              ("date", datetime.date(2001, 2, 3), "2001-02-03", "1999-12-31", datetime.date(1999, 12, 31)),
              ("string", "s", "s", "t", "t")]
     results = {}
-    for style in ("named", "anonymous"):
+    for style in ("named", "anonymous", "named-twice"):
         decl, members = [], []
         for i, c in enumerate(cases):
-            if style == "named":
+            if style == "named-twice":
+                # a named restriction of a named restriction of the builtin
+                decl.append('<xsd:simpleType name="B%d"><xsd:restriction base="xsd:%s"/></xsd:simpleType>'
+                            '<xsd:simpleType name="R%d"><xsd:restriction base="x:B%d"/></xsd:simpleType>' % (i, c[0], i, i))
+                members.append('<xsd:element name="m%d" type="x:R%d"/>' % (i, i))
+            elif style == "named":
                 decl.append('<xsd:simpleType name="R%d"><xsd:restriction base="xsd:%s"/></xsd:simpleType>' % (i, c[0]))
                 members.append('<xsd:element name="m%d" type="x:R%d"/>' % (i, i))
             else:
@@ -421,7 +426,7 @@ def simple_type_renderings(ctx):
         if sent != [c[2] for c in cases] or [(type(g).__name__, g) for g in got] != [(type(c[4]).__name__, c[4]) for c in cases]:
             ctx.fail("values of a restricted simple type are not written / read by the rules of the type it restricts",
                      meta, [sent, repr(got)], [[c[2] for c in cases], repr([c[4] for c in cases])])
-    if len(results) == 2 and results["named"] != results["anonymous"]:
+    if len(results) == 3 and not (results["named"] == results["anonymous"] == results["named-twice"]):
         ctx.fail("a named and an anonymous rendering of the same simple type behave differently", {"stream":
                  "simple-type-renderings"}, repr(results["anonymous"]), repr(results["named"]))
 
@@ -459,7 +464,9 @@ def _hw_blocks(style):
     dc, qc = own("c", "urn:c")
     A = ('<xs:schema targetNamespace="urn:a" xmlns:xs="%s"%s xmlns:pb="urn:b"><xs:import namespace="urn:b"/>'
          '<xs:element name="Op"><xs:complexType><xs:sequence><xs:element ref="pb:item"/><xs:element ref="pb:x"/>'
-         '<xs:element name="note" type="xs:string"/><xs:element ref="%sown"/></xs:sequence></xs:complexType></xs:element>'
+         '<xs:element name="note" type="xs:string"/><xs:element ref="%sown"/>'
+         '<xs:element name="i1" type="q1:Info" xmlns:q1="urn:b" minOccurs="0"/>'
+         '<xs:element name="i2" type="q1:Info" xmlns:q1="urn:c" minOccurs="0"/></xs:sequence></xs:complexType></xs:element>'
          '<xs:element name="own"><xs:complexType><xs:sequence><xs:element name="k" type="xs:string"/></xs:sequence>'
          '</xs:complexType></xs:element>'
          '<xs:element name="OpResponse"><xs:complexType><xs:sequence><xs:element ref="pb:item" minOccurs="0"/>'
@@ -467,9 +474,11 @@ def _hw_blocks(style):
     B = ('<xs:schema targetNamespace="urn:b" xmlns:xs="%s"%s xmlns:pc="urn:c"><xs:import namespace="urn:c"/>'
          '<xs:element name="item"><xs:complexType><xs:sequence><xs:element name="code" type="xs:string"/>'
          '<xs:element name="qty" type="xs:int"/></xs:sequence></xs:complexType></xs:element>'
-         '<xs:element name="x" type="pc:T"/></xs:schema>' % (XS, db))
+         '<xs:element name="x" type="pc:T"/><xs:complexType name="Info"><xs:sequence><xs:element name="bi" '
+         'type="xs:string"/></xs:sequence></xs:complexType></xs:schema>' % (XS, db))
     C = ('<xs:schema targetNamespace="urn:c" xmlns:xs="%s"%s elementFormDefault="qualified"><xs:complexType name="T">'
-         '<xs:sequence><xs:element name="v" type="xs:int"/></xs:sequence></xs:complexType></xs:schema>' % (XS, dc))
+         '<xs:sequence><xs:element name="v" type="xs:int"/></xs:sequence></xs:complexType><xs:complexType name="Info">'
+         '<xs:sequence><xs:element name="ci" type="xs:string"/></xs:sequence></xs:complexType></xs:schema>' % (XS, dc))
     return {"A": A, "B": B, "C": C}
 
 
@@ -482,13 +491,15 @@ def handwritten_renderings(ctx):
         ["urn:b", "item", None, [[None, "code", "A1", []], [None, "qty", "3", []]]],
         ["urn:b", "x", None, [["urn:c", "v", "7", []]]],
         [None, "note", "hello", []],
-        ["urn:a", "own", None, [[None, "k", "kk", []]]]]]]
+        ["urn:a", "own", None, [[None, "k", "kk", []]]],
+        [None, "i1", None, [[None, "bi", "x", []]]], [None, "i2", None, [["urn:c", "ci", "y", []]]]]]]
 
     def canon(n):
         return [n["name"][0], n["name"][1], (n.get("text") or None) if not n["children"] else None,
                 [canon(c) for c in n["children"]]]
     reply = ('<e:Envelope xmlns:e="%s"><e:Body><r:OpResponse xmlns:r="urn:a"><z:item xmlns:z="urn:b"><code>C</code>'
              '<qty>5</qty></z:item></r:OpResponse></e:Body></e:Envelope>' % xmlread.ENV11).encode()
+    plain_ref = [None]
     for style in ("prefixed", "default"):
         blocks = _hw_blocks(style)
         for order in itertools.permutations("ABC"):
@@ -497,7 +508,8 @@ def handwritten_renderings(ctx):
             w = (_HW_WSDL % {"rootdecl": "", "schemas": "".join(blocks[k] for k in order)}).encode()
             try:
                 c = wsdlkit.client(w, nosend=True)
-                env = wsdlkit.envelope_bytes(c.service.Op({"code": "A1", "qty": 3}, {"v": 7}, "hello", {"k": "kk"}))
+                env = wsdlkit.envelope_bytes(c.service.Op({"code": "A1", "qty": 3}, {"v": 7}, "hello", {"k": "kk"},
+                                                              {"bi": "x"}, {"ci": "y"}))
                 body = xmlread.find1(xmlread.parse(env), "Body")
                 got = [canon(k) for k in body["children"]]
             except Exception as e:
@@ -506,6 +518,17 @@ def handwritten_renderings(ctx):
                 continue
             if got != want:
                 ctx.fail("request differs from what the abstract interface prescribes", meta, got, want, kind="request")
+            plain = []
+            for nm in ("own", "item", "T", "Info", "Op"):
+                try:
+                    plain.append([nm, sorted(k for k, _v in c.factory.create(nm))])
+                except Exception as e:
+                    plain.append([nm, type(e).__name__])
+            if plain_ref[0] is None:
+                plain_ref[0] = plain
+            elif plain != plain_ref[0]:
+                ctx.fail("a name without a prefix means different things under different renderings", meta, plain,
+                         plain_ref[0], kind="factory")
             try:
                 r = wsdlkit.client(w).service.Op({"code": "A1", "qty": 3}, {"v": 7}, "hello", {"k": "kk"},
                                                   __inject={"reply": reply})
